@@ -19,6 +19,7 @@
   paths that exist, in creation order (used by the driver to compare with a dump of `getGraph()`).
   `rets` (all returns that were averaged into an action's `V`) and `budget` are ghost fields.
 -/
+import AITB.Model.Num
 namespace AITB.Tree
 
 abbrev Key := Nat × Nat
@@ -44,8 +45,19 @@ structure Mdl where
   rollOff : Int
   /-- POMCP only: the rollout at a new leaf is guarded by `depth + 1 < maxDepth_ && !isTerminal(s1)` -/
   rollGuard : Bool
-  /-- the exploration constant is > 0 (then an untried action has UCT score `+inf`); `false`: it is 0 -/
-  explPos : Bool
+  /-- the exploration bonus `exploration_ * sqrt(log(count + 1.0) / n)` of `findBestBonusA` as the *double* the code
+      computes (`+inf` for `n = 0` when the constant is positive, `NaN` when it is 0); `log`/`sqrt` are not modelled:
+      the values are a parameter, supplied by the driver from the same expression in double arithmetic -/
+  bonus : Nat → Nat → XRat
+  /-- `none`: the chosen action must be exactly the one the scan of `findBestBonusA` selects on the modelled scores;
+      `some ε`: any action whose score is within `ε` of it is accepted (used by the driver only to recognise runs in
+      which rounding of `V` decided a near-tie) -/
+  uctSlack : Option Rat
+  /-- rPOMCP only: `UseEntropy` (negative-entropy knowledge measure) instead of max-of-belief -/
+  entropy : Bool := false
+  /-- rPOMCP with entropy only: `p * log(p)` for `p = c / n` as the double the code computes (`log` is not
+      modelled: the values are a parameter, supplied by the driver from the same expression in double arithmetic) -/
+  plogp : Nat → Nat → Rat := fun _ _ => 0
   /-- `getA()` / `getA(s)` -/
   numA : Nat → Nat
   /-- the outcome is in the support of the generative model and `term` is `isTerminal(s1)` -/
@@ -113,23 +125,45 @@ def rollout (m : Mdl) : Nat → Nat → Rat → List Step → Option (Rat × Lis
         | some (x, log') => some (g * st.r + x, log')
     else none
 
-/-- least `a < n` with `f a = 0` -/
-def firstUntried (f : Nat → Nat) : Nat → Option Nat
-  | 0 => none
-  | n+1 => match firstUntried f n with
-    | some a => some a
-    | none => if f n = 0 then some n else none
+/-- IEEE addition on extended rationals -/
+def xadd : XRat → XRat → XRat
+  | .nan, _ => .nan
+  | _, .nan => .nan
+  | .pinf, .ninf => .nan
+  | .ninf, .pinf => .nan
+  | .pinf, _ => .pinf
+  | _, .pinf => .pinf
+  | .ninf, _ => .ninf
+  | _, .ninf => .ninf
+  | .fin a, .fin b => .fin (a + b)
 
-/-- what `findBestBonusA` is known to do without evaluating `log`/`sqrt`: the score of an untried action is
-    `V + c·sqrt(log(N+1)/0)`, i.e. `+inf` for `c > 0` and `NaN` for `c = 0`; the scan keeps the first best
-    (`>`), and nothing compares greater than, or to, a `NaN`.  So for `c > 0` the first untried action is taken
-    while there is one; for `c = 0` action 0 if it is untried, otherwise some action already tried. -/
+/-- the scan of `findBestBonusA` over scores `sc 0 … sc (n-1)`: start with the first, move on `actionValue > bestValue`
+    (IEEE `>`: false whenever a `NaN` is involved) -/
+def firstBestX (sc : Nat → XRat) : Nat → Nat
+  | 0 => 0
+  | n+1 => if XRat.gt (sc n) (sc (firstBestX sc n)) then n else firstBestX sc n
+
+/-- `an.V + exploration_ * sqrt(logCount / an.N)` with the node count `cnt` already incremented -/
+def uctScore (m : Mdl) (cnt : Nat) (aN : Nat → Nat) (aV : Nat → Rat) (b : Nat) : XRat :=
+  xadd (.fin (aV b)) (m.bonus cnt (aN b))
+
+/-- the action `simulate` takes at a node: `findBestBonusA(begin, end, sn.N)` after `sn.N++` -/
+def uctPick (m : Mdl) (cnt nA : Nat) (aN : Nat → Nat) (aV : Nat → Rat) : Nat :=
+  firstBestX (uctScore m cnt aN aV) nA
+
+def uctOkGen (m : Mdl) (cnt nA : Nat) (aN : Nat → Nat) (aV : Nat → Rat) (a : Nat) : Bool :=
+  match m.uctSlack with
+  | none => a == uctPick m cnt nA aN aV
+  | some eps =>
+    -- the slack only concerns finite scores: on `+inf` / `NaN` (untried actions) the scan is unambiguous
+    match uctScore m cnt aN aV (uctPick m cnt nA aN aV) with
+    | .fin best => (match uctScore m cnt aN aV a with
+                    | .fin sa => decide (best ≤ sa + eps)
+                    | _ => false)
+    | _ => a == uctPick m cnt nA aN aV
+
 def uctOk (m : Mdl) (t : Tree) (p : Path) (a : Nat) : Bool :=
-  if m.explPos then
-    match firstUntried (t.aN p) (t.nA p) with
-    | some u => a == u
-    | none => true
-  else if t.aN p 0 = 0 then a == 0 else t.aN p a != 0
+  uctOkGen m (t.nN p + 1) (t.nA p) (t.aN p) (t.aV p) a
 
 inductive Mode where
   | stop
@@ -254,12 +288,14 @@ def sumTo (f : Nat → Nat) : Nat → Nat
   | n+1 => sumTo f n + f n
 
 
-/-! ### rPOMCP (max-of-belief variant, `UseEntropy = false`)
+/-! ### rPOMCP (both knowledge measures: max-of-belief `UseEntropy = false`, negative entropy `UseEntropy = true`)
 
   Anchors: include/AIToolbox/POMDP/Algorithms/rPOMCP.hpp (`sampleAction` ×2, `runSimulation`, `simulate`,
   `maxBeliefNodeUpdate`), Utils/rPOMCPGraph.hpp (`BeliefNode<false>::updateBeliefAndKnowledge`, the three
   `HeadBeliefNode` constructors).  No rollouts, the model's rewards are ignored: the value passed upwards is
-  built from the knowledge measure `max_s count(s) / (N+1)` of the belief nodes.  Everything is rational.
+  built from the knowledge measure of the belief nodes: `max_s count(s) / (N+1)`, or the running sum of the terms
+  `p log p` (one per particle type, refreshed only for the type just seen — as the code does).  Everything but `log` is rational.
+  `dps` (the datapoints averaged into each action value) is a ghost field like `rets` above.
   `stops` (visits that ended at the node as a leaf) and `margin` (smallest non-zero gap seen in a `>=` / `>`
   comparison of values, so the driver can set ill-conditioned runs aside) are ghost fields. -/
 namespace R
@@ -280,12 +316,15 @@ structure RTree where
   stops : Path → Nat
   nodes : List Path
   margin : Option Rat
+  negEnt : Path → Nat → Rat
+  dps : Path → Nat → List Rat
 
 def RTree.fresh (support : List Nat) (nA : Nat) : RTree :=
   { ex := fun p => p == [], nN := fun _ => 0, nA := fun p => if p = [] then nA else 0,
     tb := fun p s => if p = [] ∧ support.contains s then 1 else 0, keys := fun p => if p = [] then support else [],
     maxS := fun _ => 0, km := fun _ => 0, v := fun _ => 0, actV := fun _ => 0, best := fun _ => 0,
-    aN := fun _ _ => 0, aV := fun _ _ => 0, stops := fun _ => 0, nodes := [[]], margin := none }
+    aN := fun _ _ => 0, aV := fun _ _ => 0, stops := fun _ => 0, nodes := [[]], margin := none,
+    negEnt := fun _ _ => 0, dps := fun _ _ => [] }
 
 def noteMargin (mg : Option Rat) (x y : Rat) : Option Rat :=
   let d := if x < y then y - x else x - y
@@ -294,34 +333,36 @@ def noteMargin (mg : Option Rat) (x y : Rat) : Option Rat :=
   | none => some d
   | some e => if d < e then some d else mg
 
-/-- `BeliefNode<false>::updateBeliefAndKnowledge(s)` (`operator[]` on `maxS_` may create a zero entry) -/
-def RTree.updBK (t : RTree) (p : Path) (s : Nat) : RTree :=
+/-- `BeliefNode<UseEntropy>::updateBeliefAndKnowledge(s)`.
+    max-of-belief: count the particle, move `maxS_` if it is now strictly ahead (`operator[]` on `maxS_` may create a
+    zero entry), `knowledgeMeasure_ = count(maxS_) / (N+1)`.
+    entropy: `km -= negativeEntropy[s]; count(s)++; negativeEntropy[s] = p log p with p = count(s)/(N+1); km += it`. -/
+def RTree.updBK (m : Mdl) (t : RTree) (p : Path) (s : Nat) : RTree :=
   let c := t.tb p s + 1
   let tb' := updN (t.tb p) s c
-  let ms := if tb' (t.maxS p) < c then s else t.maxS p
+  let ms := if m.entropy then t.maxS p else if tb' (t.maxS p) < c then s else t.maxS p
   let keys := if (t.keys p).contains s then t.keys p else t.keys p ++ [s]
+  let newE := m.plogp c (t.nN p + 1)
   { t with tb := upd t.tb p tb', maxS := upd t.maxS p ms, keys := upd t.keys p keys,
-           km := upd t.km p ((tb' ms : Rat) / ((t.nN p + 1 : Nat) : Rat)) }
+           km := upd t.km p (if m.entropy then (t.km p - t.negEnt p s) + newE
+                             else (tb' ms : Rat) / ((t.nN p + 1 : Nat) : Rat)),
+           negEnt := upd t.negEnt p (if m.entropy then updN (t.negEnt p) s newE else t.negEnt p) }
 
 /-- first maximum of the action values (`std::max_element` with `<`) -/
 def RTree.alloc (t : RTree) (p : Path) (n : Nat) : Option RTree :=
   if t.nA p = n then some t else if t.nA p = 0 then some { t with nA := upd t.nA p n } else none
 
 def ruct (m : Mdl) (t : RTree) (p : Path) (a : Nat) : Bool :=
-  if m.explPos then
-    match firstUntried (t.aN p) (t.nA p) with
-    | some u => a == u
-    | none => true
-  else if t.aN p 0 = 0 then a == 0 else t.aN p a != 0
+  uctOkGen m (t.nN p + 1) (t.nA p) (t.aN p) (t.aV p) a
 
 /-- `simulate`, before the recursion: `b.N++`, child lookup / insertion of an empty `BNode`, particle and knowledge
     update of the child.  Returns the tree and `newNode`. -/
-def rdown (t : RTree) (p : Path) (st : Step) : RTree × Bool :=
+def rdown (m : Mdl) (t : RTree) (p : Path) (st : Step) : RTree × Bool :=
   let t := { t with nN := upd t.nN p (t.nN p + 1) }
   let child := p ++ [(st.a, st.o)]
   let newNode := !(t.ex child)
   let t := if newNode then { t with ex := upd t.ex child true, nodes := t.nodes ++ [child] } else t
-  (t.updBK child st.s1, newNode)
+  (t.updBK m child st.s1, newNode)
 
 /-- a visit that ends at the child as a leaf: `ot->second.N += 1` -/
 def rleaf (t : RTree) (child : Path) : RTree :=
@@ -349,7 +390,8 @@ def rbook (k : Nat) (t : RTree) (p : Path) (a : Nat) (imm : Rat) : Rat × Nat ×
 def rup (m : Mdl) (k : Nat) (t : RTree) (p : Path) (a depth : Nat) (imm : Rat) : RTree × Rat :=
   let n := t.aN p a + 1
   let t := { t with aN := upd t.aN p (updN (t.aN p) a n),
-                    aV := upd t.aV p (updN (t.aV p) a (t.aV p a + (imm - t.aV p a) / (n : Rat))) }
+                    aV := upd t.aV p (updN (t.aV p) a (t.aV p a + (imm - t.aV p a) / (n : Rat))),
+                    dps := upd t.dps p (updN (t.dps p) a (imm :: t.dps p a)) }
   if depth = 0 then (t, 0) else
   let b := rbook k t p a imm
   let newV := m.gamma * b.1 + t.km p
@@ -363,7 +405,7 @@ def rsim (m : Mdl) (H k : Nat) : Nat → RTree → Path → Nat → Nat → List
   | fuel+1, t, p, s, depth, st :: log =>
     if st.s = s && decide (st.a < t.nA p) && m.valid st && ruct m t p st.a then
       let child := p ++ [(st.a, st.o)]
-      let d := rdown t p st
+      let d := rdown m t p st
       let r : Option (RTree × Rat × List Step) :=
         if decide (depth + 1 < H) && !st.term && !d.2 then
           match d.1.alloc child (m.numA st.s1) with
@@ -394,19 +436,22 @@ def RTree.reroot (t : RTree) (k : Key) : RTree :=
     best := fun p => t.best (k :: p), aN := fun p => t.aN (k :: p), aV := fun p => t.aV (k :: p),
     stops := fun p => t.stops (k :: p),
     nodes := t.nodes.filterMap (fun p => match p with | k' :: r => if k' = k then some r else none | [] => none),
-    margin := t.margin }
+    margin := t.margin, negEnt := fun p => t.negEnt (k :: p), dps := fun p => t.dps (k :: p) }
+
+/-- the tree the simulations of a public rPOMCP call start from: a fresh head node, or the promoted child
+    (`HNode(A, std::move(tmp), rand_)`: everything the child holds, its particle map becoming the sampling belief) -/
+def rprepare (t : RTree) : Op → Option (RTree × Nat × Nat)
+  | .fresh parts nA H iters => some (RTree.fresh parts nA, H, iters)
+  | .adv a o parts nA H iters =>
+    if a < t.nA [] then
+      if t.ex [(a, o)] && (t.keys [(a, o)]).any (fun s => t.tb [(a, o)] s != 0) then
+        ((t.reroot (a, o)).alloc [] nA).map (fun t' => (t', H, iters))
+      else some (RTree.fresh parts nA, H, iters)
+    else none
 
 /-- one public call of rPOMCP; after the simulations `graph_.V = graph_.children[bestA].V` -/
 def rcall (m : Mdl) (k : Nat) (t : RTree) (op : Op) (log : List Step) : Option (RTree × List Step) :=
-  let prep : Option (RTree × Nat × Nat) := match op with
-    | .fresh parts nA H iters => some (RTree.fresh parts nA, H, iters)
-    | .adv a o parts nA H iters =>
-      if a < t.nA [] then
-        if t.ex [(a, o)] && (t.keys [(a, o)]).any (fun s => t.tb [(a, o)] s != 0) then
-          ((t.reroot (a, o)).alloc [] nA).map (fun t' => (t', H, iters))
-        else some (RTree.fresh parts nA, H, iters)
-      else none
-  match prep with
+  match rprepare t op with
   | none => none
   | some (t0, H, iters) =>
     if H = 0 then some (t0, log) else
